@@ -96,6 +96,10 @@ type DiffResult struct {
 // PoolWrap optionally wraps the source pool (short reads, yields...).
 type PoolWrap func(lake.Pool) lake.Pool
 
+// StoredOldSig makes DiffDirs obtain the old build's signature the way a push does: from the signature STREAM an
+// earlier WritePatch wrote (read back with ReadSignature), instead of an in-process ComputeSignature.
+var StoredOldSig = false
+
 // DiffDirs runs the real ComputeSignature + WritePatch.
 func DiffDirs(oldDir, newDir string, comp Comp, wrap PoolWrap, patchW, sigW io.Writer) (*DiffResult, error) {
 	ctx := context.Background()
@@ -110,6 +114,20 @@ func DiffDirs(oldDir, newDir string, comp Comp, wrap PoolWrap, patchW, sigW io.W
 	oldSig, err := pwr.ComputeSignature(ctx, oldC, fspool.New(oldC, oldDir), Quiet())
 	if err != nil {
 		return nil, fmt.Errorf("ComputeSignature(old): %w", err)
+	}
+	if StoredOldSig {
+		// "push v1" = diff of nothing against the old build, keeping the signature stream it writes
+		var sb bytes.Buffer
+		d0 := &pwr.DiffContext{Compression: comp.Settings(), Consumer: Quiet(), SourceContainer: oldC, Pool: fspool.New(oldC, oldDir),
+			TargetContainer: &tlc.Container{}, TargetSignature: nil}
+		if err := d0.WritePatch(ctx, io.Discard, &sb); err != nil {
+			return nil, fmt.Errorf("WritePatch(nothing -> old): %w", err)
+		}
+		si, err := ReadSig(sb.Bytes())
+		if err != nil {
+			return nil, fmt.Errorf("ReadSignature(stored old signature): %w", err)
+		}
+		oldSig = si.Hashes
 	}
 	var pool lake.Pool = fspool.New(newC, newDir)
 	if wrap != nil {
